@@ -123,6 +123,14 @@ CHECKS.update({
         note=SIM_NOTE),
 })
 
+CHECKS.update({
+    "C17": dict(
+        engine="E3 net + E4 enum, two build flavours", category="exploration", design_ref="DESIGN.md section 5 C17",
+        technique="exhaustive enumeration of all rooted port-labelled trees up to 5 nodes (6 thorough) x DC masks x clock widths x latch instants, port receive times produced by a physical delay model of the tree; init executed on the simulator and the programmed delay/offset registers compared with the model; exhaustive enumeration of inconsistent open-port/port-time reports for the no-panic clause",
+        text="On every enumerated tree the upstream neighbour is the true one, delays of DC devices never decrease in processing order, offsets equal master time minus latched receive time and the first DC device is the reference; on chains the delay equals the true one-way delay; inconsistent reports give errors, never panics.",
+        note=SIM_NOTE + " Physical model: DESIGN.md appendix C/E."),
+})
+
 NOT_YET = {
 }
 
